@@ -16,7 +16,10 @@
 
 package safesplit
 
-import "strings"
+import (
+	"strings"
+	"unicode"
+)
 
 // SplitPkgConfigFlags splits a pkg-config outputs string into parts.
 // Each part starts with "-" followed by a single character flag.
@@ -25,6 +28,15 @@ import "strings"
 func SplitPkgConfigFlags(s string) []string {
 	var result []string
 	var current strings.Builder
+	// keep is the length of current up to and including the last blank that was
+	// written because it was escaped with "\": such a blank belongs to the
+	// argument and must survive the trimming of trailing separators.
+	keep := 0
+	finish := func() string {
+		// Every part starts with "-", so only trailing separators need trimming.
+		s := current.String()
+		return s[:keep] + strings.TrimRightFunc(s[keep:], unicode.IsSpace)
+	}
 	i := 0
 
 	// Skip leading whitespace
@@ -35,8 +47,9 @@ func SplitPkgConfigFlags(s string) []string {
 	for i < len(s) {
 		// Start a new part
 		if current.Len() > 0 {
-			result = append(result, strings.TrimSpace(current.String()))
+			result = append(result, finish())
 			current.Reset()
+			keep = 0
 		}
 		// Write "-" and the flag character
 		current.WriteByte('-')
@@ -62,6 +75,7 @@ func SplitPkgConfigFlags(s string) []string {
 				// Skip backslash and write the escaped space
 				i++
 				current.WriteByte(s[i])
+				keep = current.Len()
 				i++
 				continue
 			}
@@ -87,7 +101,7 @@ func SplitPkgConfigFlags(s string) []string {
 	}
 	// Add the last part
 	if current.Len() > 0 {
-		result = append(result, strings.TrimSpace(current.String()))
+		result = append(result, finish())
 	}
 	return result
 }
